@@ -122,7 +122,8 @@ func mutateDag(r *Rand, in dInput) dInput {
 		}
 		return m
 	}
-	muts := []string{"equal-clock", "smaller-clock", "jump-ok", "jump-bad", "jump-merge", "second-root", "no-create", "merge-ops", "zero-edit", "child-create", "dup-parent"}
+	muts := []string{"equal-clock", "smaller-clock", "jump-ok", "jump-bad", "jump-merge", "second-root", "no-create", "merge-ops", "zero-edit", "child-create", "dup-parent",
+		"jump-half-range", "jump-max", "equal-clock-low-id"}
 	m := muts[r.Intn(len(muts))]
 	in.Mut = m
 	switch m {
@@ -149,6 +150,36 @@ func mutateDag(r *Rand, in dInput) dInput {
 			for j := i; j < len(cs); j++ {
 				cs[j].E += delta
 			}
+		}
+	case "jump-half-range", "jump-max":
+		// the last non-merge commit jumps into the upper half of the 64-bit range / to the top of it
+		last := -1
+		for i, c := range cs {
+			if len(c.P) == 1 {
+				reached := false
+				for j := i + 1; j < len(cs); j++ {
+					for _, p := range cs[j].P {
+						if p == i {
+							reached = true
+						}
+					}
+				}
+				if !reached {
+					last = i
+				}
+			}
+		}
+		if last >= 0 {
+			if m == "jump-max" {
+				cs[last].E = 18446744073709551614
+			} else {
+				cs[last].E = 9223372036854775808 + uint64(r.Intn(1000))
+			}
+		}
+	case "equal-clock-low-id":
+		// equal clock on a chain: with the tie broken by pack id the child may sort before its parent
+		if i := pick(func(c dCommit) bool { return len(c.P) == 1 }); i >= 0 {
+			cs[i].E = cs[cs[i].P[0]].E
 		}
 	case "jump-merge":
 		if i := pick(func(c dCommit) bool { return len(c.P) == 2 }); i >= 0 {
